@@ -40,6 +40,7 @@ def gen(seed, idx, tier):
   feats = {"free": True, "ball": True, "sleep": False}
   if r.random() < 0.5:
     feats["mocap"] = True
+  feats["cameras"] = bool(_rng.gen("c23cam", seed, idx).random() < 0.5)  # camera frames in every tracking mode are reported orientations too
   spec, rejected = scen.pick_model(seed, idx, features=feats, size="s" if r.random() < 0.7 else "m", curated_p=0.1, accept=_accept, tries=30)
   spec["opt"]["integrator"] = str(r.choice(["euler", "implicitfast", "implicit", "rk4"]))
   spec["opt"]["timestep"] = float(r.choice([0.002, 0.005, 0.01, 0.02]))
